@@ -219,9 +219,10 @@ def impl(case):
     pre = case.get("pre")
     if pre is not None and ("error" in pre or "outside" in pre):
         return ["SKIP"]
-    if case.get("mode") in PARTIAL_MODES or case.get("opts"):
+    if case.get("mode") in PARTIAL_MODES:
         return ["SKIP"]
     mode = case.get("mode", "E")
+    thr = (case.get("opts") or {}).get("embed_threshold")
     out = []
     keep = set(_model_variants(case))
     for i, v in enumerate(case["variants"]):
@@ -235,10 +236,52 @@ def impl(case):
             continue
         left = first.rule.left.raw
         pat = h_to_implicit(left) if has_XH(left) else left
-        out.append([K.rc_obs(first.rule.rc.raw, mode != "I"), 1 if first.flag else 0, K.mol_obs(pat), 1, per])
+        # the premise flag of the set-level theorems (side_okb_c): with a non-default cap it is false exactly when a search of
+        # this writing runs into the cap (reference count with networkx, independent of the engine)
+        prem = 1
+        if thr is not None and not first.flag:
+            n_all, bound = _embedding_counts(first.host, pat)
+            prem = 1 if (n_all <= thr and bound <= thr) else 0
+        out.append([K.rc_obs(first.rule.rc.raw, mode != "I"), 1 if first.flag else 0, K.mol_obs(pat), prem, per])
     # second component: every compared writing is a rewriting of the base in the sense of the theorems (the model evaluates
     # rewriting_okb on the renumberings found at generation time; expected: all 1)
     return [out, [1] * len(out)]
+
+
+def _embedding_counts(host, pat):
+    """(number of embeddings of the whole pattern, longest list the limit-free component-aware search builds) counted with
+    networkx directly: node_match = element, charge equal and hcount >=, edge_match = order equal (strict_cc_count=True)"""
+    import networkx as nx
+    from networkx.algorithms.isomorphism import GraphMatcher
+
+    def nm(h, p):
+        return h.get("element") == p.get("element") and h.get("charge") == p.get("charge") and h.get("hcount", 0) >= p.get("hcount", 0)
+
+    def em(h, p):
+        return h.get("order") == p.get("order")
+
+    def count(H, P):
+        return sum(1 for _ in GraphMatcher(H, P, node_match=nm, edge_match=em).subgraph_monomorphisms_iter())
+    n_all = count(host, pat)
+    hcs = [host.subgraph(c) for c in nx.connected_components(host)]
+    pcs = [pat.subgraph(c) for c in nx.connected_components(pat)]
+    per = []
+    for pc in pcs:
+        per.append([(i, frozenset(m.values())) for i, hc in enumerate(hcs) if hc.number_of_nodes() >= pc.number_of_nodes()
+                    for m in GraphMatcher(hc, pc, node_match=nm, edge_match=em).subgraph_monomorphisms_iter()])
+    if not pcs:
+        unl = 1
+    elif len(hcs) < len(pcs):
+        unl = n_all
+    elif len(hcs) > len(pcs):
+        unl = 0
+    else:
+        def combos(level, used):
+            if level == len(per):
+                return 1
+            return sum(combos(level + 1, used | {i}) for i, _ in per[level] if i not in used)
+        unl = combos(0, frozenset())
+    return n_all, max([unl] + [len(x) for x in per])
 
 
 # ------------------------------------------------------------------ preparation: oracle inputs of the model (RDKit parsing)
@@ -371,7 +414,7 @@ def coq_case(case):
     pre = case.get("pre")
     if pre is None:
         pre = prepare(case)["pre"]
-    if "error" in pre or "outside" in pre or pre.get("big") or case.get("mode") in PARTIAL_MODES or case.get("opts"):
+    if "error" in pre or "outside" in pre or pre.get("big") or case.get("mode") in PARTIAL_MODES:
         return None
     mode = case.get("mode", "E")
     maps = pre.get("maps") or [None] * len(_model_variants(case))
@@ -384,7 +427,9 @@ def coq_case(case):
         pi, sg = m if m is not None else ([[1, 1], [1, 1]], [])
         ws.append("(%s, %s, %s, %s)" % (_c_host(h), _c_tpl(t), cmap(pi), cmap(sg)))
     strats = K.cl([K.cN(STRATS[s]) for s in case["strategies"]])
-    return "run_c05w %s %s %s %s %s" % (K.cb(case.get("invert", False)), K.cb(mode == "I"), K.cb(mode == "E"), strats, K.cl(ws))
+    thr = (case.get("opts") or {}).get("embed_threshold")
+    return "run_c05t %s %s %s %s %s %s" % ("None" if thr is None else "(Some %s)" % K.cN(int(thr)), K.cb(case.get("invert", False)),
+                                          K.cb(mode == "I"), K.cb(mode == "E"), strats, K.cl(ws))
 
 
 # ------------------------------------------------------------------ property oracle (metamorphic, on the implementation only)
